@@ -231,7 +231,14 @@ pub fn run(a: &Args) {
         zero(2600).map(|(h, f)| ("zero".to_string(), format!("Zero 2600 {} {}", h, f)))
     }));
     for p in passes {
-        if let Ok((h, queued, away, (missed, ok, outlen))) = p.join() {
+        if let Ok((h, queued, _asked, (missed, ok, outlen, away))) = p.join() {
+            // judged against how long the thread was really away; a measurement that lands
+            // within 130 ms (timer tick + slack) of a boundary decides nothing and is left out
+            let near = |x: u64| away + 130 >= x && away <= x + 130;
+            if near(h) || near(2 * h) {
+                sink.count("pass-too-close-to-a-boundary");
+                continue;
+            }
             sink.count("pass");
             sink.push_line(
                 format!("HbPass {} {} {} {} {} {}", h, queued, away, coqfmt::b(missed), coqfmt::b(ok), outlen),
